@@ -216,7 +216,7 @@ def rule_inplace_returns(ctx):
                               where=f"{f.module.relpath}:{rt.lineno}", operand=name))
             else:
                 r.ok(construct, nontrivial=False)
-    r.floor(n, 8, "delegating returns of methods with a working copy")
+    r.floor(n, 5, "delegating returns of methods with a working copy")
     return r
 
 
